@@ -237,6 +237,9 @@ def run(ctx):
     # ---- R8 / R9 -----------------------------------------------------------------
     _user_text_and_user_callables(ctx)
 
+    # ---- R10 ---------------------------------------------------------------------
+    _agreement(ctx)
+
     # ---- R6 ----------------------------------------------------------------------
     ctx.rule('C11.R6', 'no generated wrapper puts the call-through (or a validator invocation) inside a try body: a '
              'user exception propagates unchanged; the only try statements are the PEP 525 forwarding handlers')
@@ -408,3 +411,29 @@ def _hash_guards(ctx):
                    guarded or validated,
                    f'`{norm(x)[:80]}` hashes raw user input unguarded: an unhashable argument escapes as a bare TypeError')
     ctx.floor('C11.R5', n, 2, 'first-hash sites in entry functions')
+
+
+def _agreement(ctx):
+    """R10: whenever the generated check and the explanation path disagree, the rejection surfaces as the private
+    desynchronisation error (or as a foreign exception of code the check had skipped) — every obligation of C03 about their
+    agreement is therefore a necessary condition of C11 as well and is imported here."""
+    from sa import report
+    from . import c03
+    ctx.rule('C11.R10', 'no internal underscore-prefixed error escapes through the explanation path: the obligations of C03 on '
+             'the agreement of generated check and explanation (dispatch per sign, shared logic objects, re-sampling of the '
+             'very item tested incl. Literal alternatives, licensed operations, validators called as the check calls them, '
+             'diagnoses of short-circuited operands) are imported as necessary conditions — a disagreement is reported by '
+             'beartype as _BeartypeCallHintPepRaiseDesynchronizationException')
+    sub = report.Ctx('C03', ctx.repo, tier=ctx.tier, seed=ctx.seed)
+    c03.run(sub)
+    take = ('C03.R1', 'C03.R2', 'C03.R3', 'C03.R7', 'C03.R8', 'C03.R9')
+    n = bad = 0
+    for o in sub.obs:
+        if o.rule not in take:
+            continue
+        n += 1
+        if not o.ok:
+            bad += 1
+            ctx.ob('C11.R10', f'agreement:{o.rule}:{o.key}', o.where, o.desc, False, o.detail)
+    ctx.ob('C11.R10', 'agreement:obligations-imported', 'beartype/_check/error/errmain.py:0',
+           f'{n} obligations on the agreement of check and explanation hold', bad == 0 and n >= 200, f'{bad} of {n} fail')
